@@ -76,6 +76,11 @@ func (s *MergeExp) HasRef() bool {
 	if s.ForkNode != nil {
 		return true
 	}
+	if s.MergeOver != nil && !s.MergeOver.KnownLength() {
+		// Even if the merged value is a constant, the number of elements
+		// (or the set of keys) is only known at run time.
+		return true
+	}
 	return s.Value.HasRef()
 }
 
@@ -121,6 +126,22 @@ func (m *MergeExp) FindRefs() []*RefExp {
 			}
 		}
 		refs = append(refs, m.ForkNode)
+	} else if len(refs) == 0 && m.MergeOver != nil && !m.MergeOver.KnownLength() {
+		// The merged value is a constant.  The shape of the result depends on the run-time value of the
+		// source, so whatever produces it is a dependency.
+		switch s := m.MergeOver.(type) {
+		case *MapCallSet:
+			switch r := s.Master.(type) {
+			case *RefExp:
+				refs = append(refs, r)
+			case *BoundReference:
+				refs = append(refs, r.Exp)
+			}
+		case *BoundReference:
+			refs = append(refs, s.Exp)
+		case Exp:
+			refs = append(refs, s.FindRefs()...)
+		}
 	}
 	return refs
 }
